@@ -148,6 +148,8 @@ def monitor(sess, extra):
             pairs.setdefault(op.args["pair"], {})[op.args["side"]] = op
     for k, d in pairs.items():
         a, b = d.get("a"), d.get("b")
+        if a is not None and b is None and d.get("b0") is not None and not d["b0"].ok():
+            b = d["b0"]  # the composed form already failed in setup; its open never ran
         if a is None or b is None:
             continue
         cmpk = a.args["cmp"]
@@ -164,11 +166,7 @@ def monitor(sess, extra):
                     "_in_place_detached" if a.args.get("api") == "inplace" else "", _short(va), _short(vb)), sess, a)
                 continue
         elif cmpk == "ss_open":
-            b0 = d.get("b0")
-            vb = b.outcome() if not (b.skipped() == "noctx" and b0 is not None) else b0.outcome()
-            if b.skipped() == "noctx" and b0 is None:
-                # composed setup (not tagged) failed; find nothing to compare
-                continue
+            vb = b.outcome()
             va = a.outcome()
             if a.ok() and b.ok():
                 va, vb = a.ret.get("pt"), b.ret.get("pt")
